@@ -268,6 +268,33 @@ pred itemTimesAt(b map[int]int, p int, it Item) := itemBaseAt(b, p, it) && w64(b
 pred itemKeysAt(b map[int]int, p int, it Item) := itemBaseAt(b, p, it) && w64(b, p + 16) == it.KeyHash
 pred itemFullAt(b map[int]int, p int, it Item) := itemBaseAt(b, p, it) && w64(b, p + 16) == u64(it.Timestamp) && w64(b, p + 24) == it.KeyHash
 
+// ---- Stat (C13): message count of an index file from its size
+ghost var gIdxVer map[string]Version   // version found in the header of the index file at a path (headerless: V1)
+
+// ASSUMED (I/O): opens the file, reads its size and its header
+func detect
+    flags assumed
+    ensures err == nil ==> (ret0 == V1 || ret0 == V2) && ret0 == gIdxVer[path] && ret1 == fsSize[path] && ret1 >= 0
+    ensures err != nil ==> ret1 == -1
+    ensures is(err, fs.ErrNotExist) ==> !fsExists[path]
+
+// number of items an index file of that size holds
+spec itemsIn(size int, hdr int, isz int) int
+    ensures result == (size - hdr) / isz
+pred idxCount(path string, o Params) := itemsIn(fsSize[path], ite(gIdxVer[path] == V2, 8, 0), o.Size())
+
+// sum of the first n entries of a (ghost) sequence
+spec sumTo(a map[int]int, n int) int
+    ensures n <= 0 ==> result == 0
+    ensures n >= 0 ==> sumTo(a, n + 1) == result + a[n]
+
+func Stat
+    flags noframe only_stat
+    ensures[stat_size]  err == nil ==> ret0 == fsSize[path]
+    ensures[stat_count] err == nil ==> ret1 == idxCount(path, opts)
+    ensures[stat_failed] err != nil ==> ret0 == -1 && ret1 == -1
+    ensures[stat_missing] is(err, fs.ErrNotExist) ==> !fsExists[path]
+
 // the same layouts inside a byte slice (what Read decodes from)
 pred itemBaseIn(s []byte, p int, it Item) := sb64(s, p) == u64(it.Offset) && sb64(s, p + 8) == u64(it.Position)
 pred itemTimesIn(s []byte, p int, it Item) := itemBaseIn(s, p, it) && sb64(s, p + 16) == u64(it.Timestamp)
